@@ -195,11 +195,18 @@ fn parse_next_word(ctx: &mut EvalPtr) -> Result<Word, Exception> {
             if ctx.at_end() || ctx.next_is_block_white() {
                 return Ok(Word::Value(Value::from("*")));
             } else {
-                return Ok(Word::Expand(Box::new(parse_next_word(ctx)?)));
+                // The expanded word is an ordinary word: "{*}" is not recognized again.
+                return Ok(Word::Expand(Box::new(parse_plain_word(ctx)?)));
             }
         }
+    }
 
-        // NEXT, just a normal braced word containing an asterisk.
+    parse_plain_word(ctx)
+}
+
+/// Parse and return the next word from the input, without looking for "{*}".
+fn parse_plain_word(ctx: &mut EvalPtr) -> Result<Word, Exception> {
+    if ctx.next_is('{') {
         parse_braced_word(ctx)
     } else if ctx.next_is('"') {
         parse_quoted_word(ctx)
